@@ -28,6 +28,7 @@ inductive Err where
   | io                -- `ErrorData::IO`
   | other             -- `Extension`, `MetaCircularSyntax`
   | panic (site : String)
+  | fuel              -- the model ran out of fuel: not an outcome of the real code
   deriving DecidableEq, Repr, Inhabited
 
 def Err.toString : Err → String
@@ -38,6 +39,7 @@ def Err.toString : Err → String
   | .improperList => "improperList" | .unexpectedExpr => "unexpectedExpr"
   | .libNotFound => "libNotFound" | .cyclic => "cyclic" | .io => "io" | .other => "other"
   | .panic s => "PANIC:" ++ s
+  | .fuel => "FUEL"
 
 instance : ToString Err := ⟨Err.toString⟩
 
